@@ -526,3 +526,102 @@ def run(ctx):
     for v in ("Bool", "Int", "Float", "String", "Void", "Any", "Never", "Array", "Tuple", "Mut", "Function", "Multi"):
         res.anchor(v in printers, "printer of Type::%s" % v)
     return res
+
+
+# ---------------------------------------------------------------- R-TYPETEXT
+TYPEY = ("variable::r#type::Type", "variable::multi_type::MultiType", "variable::function_type::FunctionType",
+         "variable::struct_type::StructType", "std::sync::Arc<variable::r#type::Type>")
+# the printers of types themselves (judged by R-TYPEPRINT) and two renderings of VALUES whose text is not a type
+TYPE_PRINTERS = ("<variable::r#type::Type as std::fmt::Display>::fmt", "<variable::function_type::FunctionType as std::fmt::Display>::fmt",
+                 "<variable::multi_type::MultiType as std::fmt::Display>::fmt", "<variable::struct_type::StructType as std::fmt::Display>::fmt",
+                 "<function::param::Param as std::fmt::Display>::fmt")
+VALUE_RENDERINGS = {
+    "variable::r#mut::Mut::string": "a cell VALUE `mut T v`: the grammar of that literal reads a whole type after `mut`",
+    "<function::Function as std::fmt::Display>::fmt": "a function VALUE `(x: T)->R`, not the type of one",
+}
+
+
+def _templates(lib, typey):
+    """(body, line, pieces, [type of each argument]) for every format template of the crate"""
+    for b in lib.bodies.values():
+        for c in b.calls:
+            if not c.callee.endswith("Arguments::<'a>::new"):
+                continue
+            raw = None
+            for a in c.args:
+                raw = raw or snippets._bytes_const(b, a, 0)
+            if raw is None:
+                continue
+            arr = None
+            for a in c.args:
+                cur = op_local(a)
+                for _ in range(6):
+                    dd = single_def(b, cur) if cur is not None else None
+                    if dd is None or dd[1] != "assign":
+                        break
+                    rv = dd[2]["rv"]
+                    if rv["k"] == "agg" and rv.get("agg") == "array":
+                        arr = rv["ops"]
+                        break
+                    cur = op_local(rv["o"]) if rv["k"] in ("use", "cast") else rv["place"]["l"] if rv["k"] in ("ref", "copyderef") else None
+                if arr is not None:
+                    break
+            tys = []
+            for o in (arr or []):
+                dd = single_def(b, op_local(o)) if op_local(o) is not None else None
+                t = (dd[2].get("arg_tys") or ["?"])[0] if dd and dd[1] == "call" else "?"
+                tys.append(re.sub(r"'[a-z_0-9]+ ", "", t).lstrip("&"))
+            yield b, c.line, snippets.decode_fmt_template(raw), tys
+
+
+def _hazards(pieces, tys, typey):
+    out = []
+    n = 0
+    for i, p in enumerate(pieces):
+        if not isinstance(p, int) or p >= len(tys) or not tys[p].startswith(typey):
+            continue
+        n += 1
+        prev = pieces[i - 1] if i > 0 and isinstance(pieces[i - 1], str) else ""
+        nxt = pieces[i + 1] if i + 1 < len(pieces) and isinstance(pieces[i + 1], str) else ""
+        if re.search(r"(^|[^A-Za-z0-9_])mut\s*$", prev):
+            out.append("`mut` directly before the type: a union content `mut a|b` reads as `(mut a)|b`")
+        elif re.search(r"->\s*$", prev):
+            out.append("`->` directly before the type: a union result `()->a|b` reads as `(()->a)|b`")
+        elif re.match(r"\s*(\||->)", nxt):
+            out.append("`%s` directly after the type: it is read as part of a function result / union" % nxt.strip()[:2])
+    return n, out
+
+
+def run_typetext(ctx):
+    res = RuleResult("R-TYPETEXT", "text written around a printed type (error messages, generated programs) never continues the type's own "
+                                   "syntax: outside the type printers no format template puts a type directly after `mut` / `->` or directly "
+                                   "before `|` / `->` - the parenthesisation the printer applies inside a type would be missing there")
+    lib = ctx.facts.lib
+    n = 0
+    for b, line, pieces, tys in _templates(lib, TYPEY):
+        k, hz = _hazards(pieces, tys, TYPEY)
+        if not k:
+            continue
+        n += k
+        if b.id in TYPE_PRINTERS or b.id.split("::{closure")[0] in TYPE_PRINTERS:
+            continue
+        text = "".join(p if isinstance(p, str) else "{}" for p in pieces)
+        key = "typetext:%s|%s" % (b.id, text[:60])
+        if hz and b.id in VALUE_RENDERINGS:
+            res.ok(key, b.where(line), "reviewed: " + VALUE_RENDERINGS[b.id])
+        elif hz:
+            res.bad(key, "%s prints a type inside the text %r: %s" % (b.id, text[:80], hz[0]), b.where(line))
+        else:
+            res.ok(key, b.where(line), "type stands alone in %r" % text[:50])
+    res.floor(n, 25, "type_placeholders")
+    fx = ctx.fixtures
+    pos = neg = None
+    for b, line, pieces, tys in _templates(fx, ("typetext::Ty",)):
+        if b.id == "typetext::cell_of":
+            pos = bool(_hazards(pieces, tys, ("typetext::Ty",))[1])
+        if b.id == "typetext::prose":
+            k, hz = _hazards(pieces, tys, ("typetext::Ty",))
+            neg = k == 1 and not hz
+    res.control(bool(pos), "typetext::cell_of (`mut {t}`) is reported")
+    res.control(bool(neg), "negative control typetext::prose accepted")
+    return res
